@@ -51,6 +51,10 @@ def make_use(rng, labs, pess, here_pess):
     if k == 3:
         return {'k': 'inst', 'm': rng.choice(['sw', 'sb']), 'ops': [{'r': rng.choice([8, 2, 5])}, rd, {'lo': e}]}
     if k == 4:
+        if ('off' in e or 'diff' in e or 'lab' in e) and rng.random() < 0.3:
+            # a distance / offset in a byte or a halfword: it fits or it does not, depending on where the labels end up - what is emitted
+            # must be the value (a value that does not fit is refused, C10; then nothing is emitted and there is nothing to judge)
+            return {'k': 'data', 'd': rng.choice(['db', 'dh', 'dh']), 'val': e}
         if 'off' in e or 'diff' in e:
             return {'k': 'data', 'd': 'dw', 'val': {'pos': [L, {'i': base}]}}
         return {'k': 'data', 'd': rng.choice(['dw', 'dd']), 'val': e}
